@@ -261,7 +261,8 @@ INLINES = [
     ('IGNORE_WANT', True, None), ('ELLIPSIS', False, None),
 ]
 WANTS = ['none', 'ok', 'wrong', 'ell']
-OPTIONS = ['+SKIP', '-SKIP', '-ELLIPSIS', '+IGNORE_WANT']
+OPTIONS = ['+SKIP', '-SKIP', '-ELLIPSIS', '+IGNORE_WANT', '+REQUIRES(env:XV_A==1)', '+REQUIRES(env:XV_M==1)']
+OPT_REQ = {'+REQUIRES(env:XV_A==1)': ('REQUIRES', True, 'a'), '+REQUIRES(env:XV_M==1)': ('REQUIRES', True, 'm')}
 
 
 def e2e_events():
@@ -271,8 +272,8 @@ def e2e_events():
     # the same block directive followed by two bare prompt lines (still a directive on its own line)
     for b in (BLOCKS[0], BLOCKS[1], BLOCKS[2]):
         evs.append(('blockb', b))
-    for shape in ('one', 'strlit', 'bracket', 'for', 'deco', 'decocls'):
-        multi = shape in ('bracket', 'for', 'deco', 'decocls')
+    for shape in ('one', 'strlit', 'bracket', 'for', 'deco', 'decocls', 'forblank'):
+        multi = shape in ('bracket', 'for', 'deco', 'decocls', 'forblank')
         for style in (('dots', 'chev') if multi else ('chev',)):
             for inl in INLINES:
                 if shape == 'strlit' and inl not in (None, ('SKIP', True, None), ('SKIP', False, None)):
@@ -332,6 +333,10 @@ def render_event(ev, k, okwant=None):
     elif shape == 'for':
         lines = ['>>> for i in range(2):%s' % cf, ps2 + '    P(%d)%s' % (k, cl)]
         out = ['p%d' % k, 'p%d' % k]
+    elif shape == 'forblank':
+        # a continuation line holding only blanks between the header and the (directive-carrying) last line
+        lines = ['>>> for i in range(2):%s' % cf, ps2 + '    P(%d)' % k, ps2 + '    ', ps2 + '    v%d = 0%s' % (k, cl)]
+        out = ['p%d' % k, 'p%d' % k]
     elif shape == 'deco':
         lines = ['>>> @D(%d)%s' % (k, cf), ps2 + 'def g%d():' % k, ps2 + '    pass%s' % cl]
         out = []
@@ -349,7 +354,7 @@ def render_event(ev, k, okwant=None):
 
 def ev_trace(ev, k):
     shape = ev[1]
-    if shape == 'for':
+    if shape in ('for', 'forblank'):
         return [k, k]
     if shape in ('deco', 'decocls'):
         return [('D', k), ('d', k)]
@@ -398,6 +403,10 @@ class E2ESpec(Spec):
             return (pers, 'failed+', ran)
         st = dict(pers)
         if ev[0] == 'opt':
+            if ev[1] in OPT_REQ:
+                # a default option behaves like a leading block directive
+                st = apply_directive(st, OPT_REQ[ev[1]])
+                return (tuple(sorted(st.items())), verdict, ran)
             name = ev[1][1:]
             st[name] = ev[1][0] == '+'
             return (tuple(sorted(st.items())), verdict, ran)
@@ -453,7 +462,7 @@ class E2ESpec(Spec):
             _, shape, style, inl, where, w = ev
             eff = apply_directive(st, inl) if inl else st
             runs = (not eff['SKIP']) and not eff['REQUIRES']
-            own = {'for': ['p%d' % k, 'p%d' % k], 'deco': [], 'decocls': []}.get(shape, ['p%d' % k])
+            own = {'for': ['p%d' % k, 'p%d' % k], 'forblank': ['p%d' % k, 'p%d' % k], 'deco': [], 'decocls': []}.get(shape, ['p%d' % k])
             okwant = None
             if verdict != 'run':
                 runs = False     # after the failing want nothing runs
@@ -466,7 +475,7 @@ class E2ESpec(Spec):
             else:
                 trace += ev_trace(ev, k)
                 pending = pending + own
-                if shape == 'for':
+                if shape in ('for', 'forblank'):
                     okwant = list(pending)
                     if amb and w == 'ok':
                         unspec = True
@@ -493,7 +502,7 @@ class E2ESpec(Spec):
         config = None
         if opt is not None:
             from xdoctest.doctest_example import DoctestConfig
-            ns = {'options': opt.lower(), 'offset_linenos': False, 'colored': False, 'reportchoice': 'udiff',
+            ns = {'options': opt if '(' in opt else opt.lower(), 'offset_linenos': False, 'colored': False, 'reportchoice': 'udiff',
                   'global_exec': None, 'supress_import_errors': False, 'verbose': 0}
             config = DoctestConfig()._populate_from_cli(ns)
         r = harness.run_doctest(text, config=config)
@@ -559,7 +568,7 @@ class SharedOptSpec(E2ESpec):
                 mb = self.model(((('opt', opt),) if opt else ()) + tuple(hb))
                 if mb['unspec']:
                     continue
-                ns = {'options': (opt or '').lower(), 'offset_linenos': False, 'colored': False, 'reportchoice': 'udiff',
+                ns = {'options': (opt or '') if '(' in (opt or '') else (opt or '').lower(), 'offset_linenos': False, 'colored': False, 'reportchoice': 'udiff',
                       'global_exec': None, 'supress_import_errors': False, 'verbose': 0}
                 config = DoctestConfig()._populate_from_cli(ns)
                 shared = config['default_runtime_state']
@@ -843,5 +852,5 @@ def specs(tier):
                 E2ESpec(4, 3, 'e2e-len4'),
                 E2ESpec(5, 5, 'e2e-sub5', alphabet=SUB_ALPHABET, with_opts=False), PluginSpec(3, 4, 'plugin-len3'),
                 SpellingSpec(3, 4, 'spelling-len3'), SharedOptSpec('shared-options', 3, 2, 4)]
-    return [UnitSpec(), ReqCondSpec(), E2ESpec(2, 99, 'e2e-len2'), E2ESpec(3, 3, 'e2e-len3'), PluginSpec(3, 2, 'plugin-len3'),
+    return [UnitSpec(), ReqCondSpec(), E2ESpec(2, 5, 'e2e-len2'), E2ESpec(3, 3, 'e2e-len3'), PluginSpec(3, 2, 'plugin-len3'),
             SpellingSpec(3, 2, 'spelling-len3'), SharedOptSpec('shared-options', 2, 1, 3)]
